@@ -144,28 +144,61 @@ HYPOTHESIS_MARKERS = {
 }
 
 
-def assumptions_of(mods):
-    """hypothesis markers occurring in theorem signatures / `variable` lines of the modules, and `_partial` theorems"""
+def _all_registered_modules():
+    from units import UNITS
+    out = []
+    for u in UNITS.values():
+        for l in u.get("props", {}).values():
+            out += l
+    return sorted(set(out))
+
+
+def hypotheses_of(mods):
+    """(open, discharged, partial): hypothesis markers occurring in theorem signatures / `variable` lines of the
+    modules; a marker is DISCHARGED when some registered Props module proves a theorem whose statement is exactly
+    that proposition (e.g. `theorem ladder_commutes : LadderComm`), i.e. the hypothesis is itself a checked theorem
+    and the unconditional versions of the `_partial` theorems exist; otherwise it is OPEN (a real assumption)."""
     found, partial = {}, []
     for mod in mods:
         try:
             src = strip_comments(open(module_path(mod)).read())
         except OSError:
             continue
-        # signature text = from `theorem`/`variable` up to `:=`
         sigs = re.findall(r"(?:theorem|variable)\b(.*?)(?::=|\n\s*\n|$)", src, flags=re.S)
         text = "\n".join(sigs)
-        for k, d in HYPOTHESIS_MARKERS.items():
+        for k in HYPOTHESIS_MARKERS:
             if k in text:
                 found.setdefault(k, []).append(mod)
         for (t, _) in theorems_of(mod):
             if t.endswith("_partial"):
                 partial.append(t)
-    out = [f"{HYPOTHESIS_MARKERS[k]} [in: {', '.join(sorted(set(v)))}]" for k, v in found.items()]
-    if partial:
-        out.append("theorems proved only under explicit extra hypotheses (suffix _partial; each has its unconditional "
-                   "counterpart listed in `theorems` when one exists): " + ", ".join(partial))
+    proved = {}
+    for mod in _all_registered_modules():
+        try:
+            src = strip_comments(open(module_path(mod)).read())
+        except OSError:
+            continue
+        for k in HYPOTHESIS_MARKERS:
+            m = re.search(r"theorem\s+([\w.']+)\s*(?:\[[^\]]*\]\s*)*:\s*(?:[\w.]+\.)?" + re.escape(k) + r"\s*:=", src)
+            if m and "[Fact" not in m.group(0) and "[hp" not in m.group(0):
+                proved.setdefault(k, f"{m.group(1)} in {mod}")
+    open_, discharged = [], []
+    for k, v in found.items():
+        line = f"{HYPOTHESIS_MARKERS[k]} [in: {', '.join(sorted(set(v)))}]"
+        if k in proved:
+            discharged.append(line + f" — DISCHARGED: proved as theorem {proved[k]}; the unconditional theorems use it")
+        else:
+            open_.append(line)
+    return open_, discharged, partial
+
+
+def assumptions_of(mods):
+    open_, discharged, partial = hypotheses_of(mods)
+    out = list(open_)
+    if partial and open_:
+        out.append("theorems proved only under those explicit hypotheses (suffix _partial): " + ", ".join(partial))
     return out
+
 
 def lake_build(targets, timeout=3600):
     t0 = time.time()
